@@ -376,7 +376,7 @@ func genFsCase(p *prng) []string {
 	mf := p.intn(4)
 	md := []int{0, 0, 0, 30}[p.intn(4)]
 	tso := p.intn(2)
-	mode := []int{0, 0, 416}[p.intn(3)]
+	mode := []int{0, 0, 416, 438, 432}[p.intn(5)] // 0640, and 0666 / 0660: bits the process umask (022) would clear
 	ops := []string{fmt.Sprintf("reset %d %d %d %d %d", mb, mf, md, tso, mode)}
 	n := 3 + p.intn(25)
 	id := 1
@@ -539,6 +539,7 @@ func filesinkMain(args []string) {
 	opsFile := fs.String("ops", "", "ops file to replay")
 	corpus := fs.String("corpus", "", "corpus dir")
 	fs.Parse(args)
+	syscall.Umask(0o022) // the configured mode must come out whatever the umask clears at creation
 	st := newStats()
 	h := &fsHarness{st: st, base: filepath.Join(*out, "files")}
 	o := openOut(*out)
